@@ -12,4 +12,9 @@ trap 'rm -rf "$S"' EXIT
 "$VERIF/bin/vinstr" -src "${VERIF_REPO:-/repo}" -dst "$S"
 cp -r "$VERIF/engine/zverif" "$S/zverif"
 (cd "$S" && go build -o "$S/vcheck" ./zverif/cmd/vcheck)
+# warm the race-enabled standard library and packages
+R="$S/plain"; mkdir -p "$R"
+"$VERIF/bin/vinstr" -plain -src "${VERIF_REPO:-/repo}" -dst "$R"
+mkdir -p "$R/zverif/cmd" && cp -r "$VERIF/engine/zverif/cmd/c13run" "$R/zverif/cmd/"
+(cd "$R" && CGO_ENABLED=1 go build -race -o "$S/c13run" ./zverif/cmd/c13run)
 echo setup ok
